@@ -110,6 +110,15 @@ func c02Plan(r *simkit.Run, c Cfg, w *World) (c04Cfg, []faultPlan) {
 			}
 			plans = append(plans, p)
 		}
+		if h.mhType != multihash.IDENTITY && tp.Chance(1, 8, "bigHead") {
+			// size boundaries: the newest advertisement is a block of exactly
+			// 2^k-1, 2^k or 2^k+1 bytes (4 KiB .. 4 MiB) and arrives with
+			// extra bytes appended
+			k := tp.Range(12, 22, "bigK")
+			cfg.padHead = 1<<k + tp.Choose(3, "bigD") - 1
+			cfg.announce, cfg.seg = false, -1
+			plans = []faultPlan{{kind: fkAppend, at: 1, exact: true, body: tp.Bytes(1+tp.Choose(40, "applen"), "appbytes")}}
+		}
 		return cfg, plans
 	}
 	k := c02Decode(c.Case, c.Tier)
